@@ -215,6 +215,26 @@ fn emitted(encoder: &mut TTYEncoder, buf: &mut Vec<u8>, role: u8, color: RGBA) -
         }),
     };
     buf.clear();
+    // every other colour is first refused by a congested output (nothing written): the encoding that
+    // follows must be the same as if that had not happened
+    if color.to_rgb()[2] % 2 == 1 {
+        struct Refuse;
+        impl std::io::Write for Refuse {
+            fn write(&mut self, buf: &[u8]) -> std::io::Result<usize> {
+                if buf.is_empty() {
+                    Ok(0)
+                } else {
+                    Err(std::io::ErrorKind::WouldBlock.into())
+                }
+            }
+            fn flush(&mut self) -> std::io::Result<()> {
+                Ok(())
+            }
+        }
+        let other = RGBA::new(255 - color.to_rgb()[0], 17, 200, 255);
+        let refused = TerminalCommand::Face(Face::new(Some(other), Some(other), FaceAttrs::BOLD));
+        let _ = encoder.encode(&mut Refuse, refused);
+    }
     encoder
         .encode(&mut *buf, cmd)
         .map_err(|e| Fail::new("encode-error", format!("{e}")))?;
@@ -357,7 +377,12 @@ impl Prop for C20 {
         match case.depth {
             0 => {
                 for c in colors.iter() {
-                    let color = unpack(*c);
+                    // true colour carries the three channels as they are, whatever the alpha channel says
+                    let opaque = unpack(*c);
+                    let [r, g, b] = opaque.to_rgb();
+                    let alpha = [255u8, 255, 255, 0, 1, 128, 254][(*c as usize ^ (*c >> 9) as usize) % 7];
+                    let color = RGBA::new(r, g, b, alpha);
+                    ctx.feat_if(alpha != 255, "truecolor.translucent-colour");
                     let got = emitted(&mut encoder, &mut buf, case.role, color)?;
                     let want = ColorSpec::Rgb((c >> 16) as u8, (c >> 8) as u8, *c as u8);
                     ensure!(
